@@ -8,7 +8,7 @@ from bcheck.common import pmap, result, time_limit, CaseTimeout
 from bcheck import pipeline as pl
 from bcheck import conflict_monitor as cm
 
-DEFAULTS = dict(sp=1000, dp=1.0, su=-250, d=1500, ms=1000, bs=1200, p=3, diff=100000)
+DEFAULTS = dict(sp=1000, dp=1.0, su=-250, d=1500, ms=1000, bs=1200, p=3, diff=100000, ss=0, sj=1.0)
 
 
 def install_context():
@@ -67,7 +67,7 @@ def install_context():
 
 
 def param_args(params):
-    flags = dict(sp='-sp', dp='-dp', su='-su', d='-d', ms='-ms', bs='-bs', p='-p', diff='-diff')
+    flags = dict(sp='-sp', dp='-dp', su='-su', d='-d', ms='-ms', bs='-bs', p='-p', diff='-diff', ss='-ss', sj='-sj')
     out = []
     for k, v in params.items():
         if DEFAULTS.get(k) != v:
@@ -81,7 +81,7 @@ def run_job(job):
     install_context()
     seed = job['seed']
     params = dict(DEFAULTS, **job.get('params', {}))
-    refs, queries, truths = pl.gen_set(seed, kinds=job.get('kinds', pl.KINDS), weights=job.get('weights'))
+    refs, queries, truths = pl.gen_set(seed, kinds=job.get('kinds', pl.KINDS), weights=job.get('weights'), odd_refs=job.get('odd_refs', False))
     d = pl.make_workdir(refs, queries)
     out = dict(records=0, nontrivial=0, violations=[], runs=0)
     try:
@@ -204,13 +204,13 @@ def c18(run, d, mode):
     return v
 
 
-def run(repo, tier, seed, oracles, modes, nsets, params_list=None, kinds=None, weights=None, fid_hint='', rule=''):
+def run(repo, tier, seed, oracles, modes, nsets, params_list=None, kinds=None, weights=None, fid_hint='', rule='', odd_refs=False):
     jobs = []
     rnd = random.Random(seed)
     params_list = params_list or [{}]
     for i in range(nsets):
         jobs.append(dict(seed=seed * 100003 + i, modes=modes if not callable(modes) else modes(i), params=params_list[i % len(params_list)],
-                         oracles=oracles, kinds=kinds or pl.KINDS, weights=weights))
+                         oracles=oracles, kinds=kinds or pl.KINDS, weights=weights, odd_refs=odd_refs))
     res = pmap(run_job, jobs, repo, timeout=3000)
     viol, known = {}, {}
     for r in res:
